@@ -218,11 +218,18 @@ def rule_c(ctx):
     sd = m.func(TRA, "BaseTransformation.set_dtype")
     tabs = {}
     for iff in sd.node.body:
-        if isinstance(iff, ast.If) and isinstance(iff.test, ast.Compare) and self_attr(iff.test.left) in ("input_dtype", "output_dtype"):
-            side = self_attr(iff.test.left).split("_")[0]
+        def sides(t):
+            """(dtype attribute, other operand) of `self.X_dtype == K` in either operand order."""
+            if isinstance(t, ast.Compare) and len(t.ops) == 1:
+                for a_, b_ in ((t.left, t.comparators[0]), (t.comparators[0], t.left)):
+                    if self_attr(a_) in ("input_dtype", "output_dtype"):
+                        return self_attr(a_), b_
+            return None, None
+        if isinstance(iff, ast.If) and sides(iff.test)[0]:
+            side = sides(iff.test)[0].split("_")[0]
             cur, tab = iff, {}
             while True:
-                key = norm(cur.test.comparators[0])
+                key = norm(sides(cur.test)[1]) if sides(cur.test)[0] else norm(cur.test)
                 val = [norm(s.value) for s in cur.body if isinstance(s, ast.Assign) and self_attr(s.targets[0]) == f"{side}_array_dtype"]
                 tab[key] = val[0] if val else None
                 if len(cur.orelse) == 1 and isinstance(cur.orelse[0], ast.If):
